@@ -1114,35 +1114,41 @@ end Verif.SCEP
 namespace Verif.SCEP
 open Verif
 
-/-! ## 9. configuration conversions (ca.json ⇄ admin database) keep the challenge in force -/
+/-! ## 9. configuration conversions (ca.json ⇄ admin database) keep the challenge in force;
+       mis-spelt webhooks never initialise -/
 
-theorem isChallengeHook_rt (h : Hook) : isChallengeHook (rtHook h) = isChallengeHook h := by
-  obtain ⟨k, ct, f, s2⟩ := h
-  cases k <;> cases ct <;> rfl
+/-- every webhook's certificate type is a certificate type (or unset) -/
+def certTypesSpelt (c : Config) : Prop := ∀ h ∈ c.hooks, h.ct ≠ .unknown
 
-theorem isNotifyHook_rt (h : Hook) : isNotifyHook (rtHook h) = isNotifyHook h := by
+theorem isChallengeHook_rt (h : Hook) (hv : h.ct ≠ .unknown) : isChallengeHook (rtHook h) = isChallengeHook h := by
   obtain ⟨k, ct, f, s2⟩ := h
-  cases k <;> cases ct <;> rfl
+  cases k <;> cases ct <;> first | rfl | exact absurd rfl hv
+
+theorem isNotifyHook_rt (h : Hook) (hv : h.ct ≠ .unknown) : isNotifyHook (rtHook h) = isNotifyHook h := by
+  obtain ⟨k, ct, f, s2⟩ := h
+  cases k <;> cases ct <;> first | rfl | exact absurd rfl hv
 
 theorem res_rt (h : Hook) : (rtHook h).res = h.res := rfl
 
-theorem filter_map_rt (f : Hook → Bool) (hf : ∀ h, f (rtHook h) = f h) (l : List Hook) :
+theorem filter_map_rt (f : Hook → Bool) (l : List Hook) (hf : ∀ h ∈ l, f (rtHook h) = f h) :
     (l.map rtHook).filter f = (l.filter f).map rtHook := by
   induction l with
   | nil => rfl
   | cons x xs ih =>
-    simp only [List.map_cons, List.filter_cons, hf x]
-    split <;> simp [ih]
+    have hx := hf x List.mem_cons_self
+    have hxs := ih (fun h hh => hf h (List.mem_cons_of_mem _ hh))
+    simp only [List.map_cons, List.filter_cons, hx]
+    split <;> simp [hxs]
 
-theorem challengeHooks_roundTrip (p : ProvCfg) :
+theorem challengeHooks_roundTrip (p : ProvCfg) (hv : certTypesSpelt p.cfg) :
     challengeHooks (roundTrip p).cfg = (challengeHooks p.cfg).map rtHook := by
   simp only [challengeHooks, roundTrip]
-  exact filter_map_rt _ isChallengeHook_rt _
+  exact filter_map_rt _ _ (fun h hh => isChallengeHook_rt h (hv h hh))
 
-theorem notifyHooks_roundTrip (p : ProvCfg) :
+theorem notifyHooks_roundTrip (p : ProvCfg) (hv : certTypesSpelt p.cfg) :
     notifyHooks (roundTrip p).cfg = (notifyHooks p.cfg).map rtHook := by
   simp only [notifyHooks, roundTrip]
-  exact filter_map_rt _ isNotifyHook_rt _
+  exact filter_map_rt _ _ (fun h hh => isNotifyHook_rt h (hv h hh))
 
 theorem runHooks_map_rt (l : List Hook) (a n : Nat) : runHooks (l.map rtHook) a n = runHooks l a n := by
   induction l generalizing a n with
@@ -1158,30 +1164,32 @@ theorem runNotify_map_rt (l : List Hook) : runNotify (l.map rtHook) = runNotify 
     simp only [List.map_cons, runNotify, res_rt]
     cases x.res <;> simp [ih]
 
-theorem selectValidationMethod_roundTrip (p : ProvCfg) :
+theorem selectValidationMethod_roundTrip (p : ProvCfg) (hv : certTypesSpelt p.cfg) :
     selectValidationMethod (roundTrip p).cfg = selectValidationMethod p.cfg := by
   unfold selectValidationMethod
-  rw [challengeHooks_roundTrip]
+  rw [challengeHooks_roundTrip p hv]
   simp only [List.length_map]
   rfl
 
-theorem validateChallenge_roundTrip (p : ProvCfg) (cp : Str) :
+theorem validateChallenge_roundTrip (p : ProvCfg) (hv : certTypesSpelt p.cfg) (cp : Str) :
     validateChallenge (roundTrip p).cfg cp = validateChallenge p.cfg cp := by
   unfold validateChallenge
-  rw [selectValidationMethod_roundTrip, challengeHooks_roundTrip, runHooks_map_rt]
+  rw [selectValidationMethod_roundTrip p hv, challengeHooks_roundTrip p hv, runHooks_map_rt]
   rfl
 
 /-- **A provisioner that went through the admin database behaves as configured**: the PKI operation
     on `ProvisionerToCertificates (ProvisionerToLinkedca p)` is the PKI operation on `p`, for every
-    request. -/
-theorem pkiOperation_roundTrip (F : Facts) (p : ProvCfg) (q : Req) :
+    request — provided every webhook's certificate type is spelt as one (a mis-spelt one comes back
+    as "ALL": see `misspelt_certtype_activated_by_conversion`). -/
+theorem pkiOperation_roundTrip (F : Facts) (p : ProvCfg) (hv : certTypesSpelt p.cfg) (q : Req) :
     pkiOperation F (roundTrip p).cfg q = pkiOperation F p.cfg q := by
   unfold pkiOperation
-  simp only [validateChallenge_roundTrip, notifyHooks_roundTrip, runNotify_map_rt]
+  simp only [validateChallenge_roundTrip p hv, notifyHooks_roundTrip p hv, runNotify_map_rt]
 
-theorem accepted_roundTrip (p : ProvCfg) (q : Req) : Accepted (roundTrip p).cfg q ↔ Accepted p.cfg q := by
+theorem accepted_roundTrip (p : ProvCfg) (hv : certTypesSpelt p.cfg) (q : Req) :
+    Accepted (roundTrip p).cfg q ↔ Accepted p.cfg q := by
   unfold Accepted
-  rw [selectValidationMethod_roundTrip, challengeHooks_roundTrip]
+  rw [selectValidationMethod_roundTrip p hv, challengeHooks_roundTrip p hv]
   cases selectValidationMethod p.cfg <;> simp [roundTrip, res_rt]
   intro _
   constructor
@@ -1190,6 +1198,14 @@ theorem accepted_roundTrip (p : ProvCfg) (q : Req) : Accepted (roundTrip p).cfg 
   · rintro ⟨a, ha, hr⟩
     exact ⟨rtHook a, ⟨a, ha, rfl⟩, by simpa [res_rt] using hr⟩
 
+/-- after one conversion every certificate type is spelt -/
+theorem certTypesSpelt_roundTrip (p : ProvCfg) : certTypesSpelt (roundTrip p).cfg := by
+  intro h hh
+  simp only [roundTrip, List.mem_map] at hh
+  obtain ⟨x, _, rfl⟩ := hh
+  obtain ⟨k, ct, f, s2⟩ := x
+  cases ct <;> simp [rtHook, rtCertType]
+
 /-- nothing else of the configuration changes, and a second conversion changes nothing more -/
 theorem roundTrip_fields (p : ProvCfg) :
     (roundTrip p).cfg.secret = p.cfg.secret ∧ (roundTrip p).forceCN = p.forceCN ∧ (roundTrip p).caps = p.caps ∧
@@ -1197,53 +1213,117 @@ theorem roundTrip_fields (p : ProvCfg) :
     (roundTrip p).minKeyLen = p.minKeyLen ∧ (roundTrip p).encAlg = p.encAlg ∧
     (roundTrip p).decCert = p.decCert ∧ (roundTrip p).decKey = p.decKey ∧
     (roundTrip p).cfg.hooks.length = p.cfg.hooks.length ∧
+    (∀ h ∈ (roundTrip p).cfg.hooks, ∃ x ∈ p.cfg.hooks, h.kind = x.kind ∧ h.res = x.res) ∧
     roundTrip (roundTrip p) = roundTrip p := by
-  refine ⟨rfl, rfl, rfl, rfl, rfl, rfl, rfl, rfl, rfl, by simp [roundTrip], ?_⟩
-  simp only [roundTrip, List.map_map]
-  congr 2
-  apply List.map_congr_left
-  intro h _
-  obtain ⟨k, ct, f, s2⟩ := h
-  cases ct <;> rfl
-
-/-- `k` conversions to the admin database and back -/
-def roundTrips : Nat → ProvCfg → ProvCfg
-  | 0, p => p
-  | k + 1, p => roundTrips k (roundTrip p)
+  refine ⟨rfl, rfl, rfl, rfl, rfl, rfl, rfl, rfl, rfl, by simp [roundTrip], ?_, ?_⟩
+  · intro h hh
+    simp only [roundTrip, List.mem_map] at hh
+    obtain ⟨x, hx, rfl⟩ := hh
+    exact ⟨x, hx, rfl, rfl⟩
+  · simp only [roundTrip, List.map_map]
+    congr 2
+    apply List.map_congr_left
+    intro h _
+    obtain ⟨k, ct, f, s2⟩ := h
+    cases ct <;> rfl
 
 /-- **`challenge_required` for a provisioner migrated to / loaded from the admin database** any number
     of times and initialised any number of times. -/
-theorem challenge_required_after_conversions (k n : Nat) (p : ProvCfg) (q : Req) (res : Result)
-    (hm : selectValidationMethod p.cfg ≠ .none)
+theorem challenge_required_after_conversions (k n : Nat) (p : ProvCfg) (hv : certTypesSpelt p.cfg) (q : Req)
+    (res : Result) (hm : selectValidationMethod p.cfg ≠ .none)
     (hrun : pkiOperationP asCoded (initN (n + 1) (Prov.new (roundTrips k p).cfg)) q = .val res)
     (hc : res.carriesCert = true) : Accepted p.cfg q := by
   induction k generalizing p with
   | zero => exact challenge_required_any_inits n p.cfg q res hm hrun hc
   | succ k ih =>
-    have := ih (roundTrip p) (by rwa [selectValidationMethod_roundTrip]) (by simpa [roundTrips] using hrun)
-    exact (accepted_roundTrip p q).mp this
+    have := ih (roundTrip p) (certTypesSpelt_roundTrip p) (by rwa [selectValidationMethod_roundTrip p hv])
+      (by simpa [roundTrips] using hrun)
+    exact (accepted_roundTrip p hv q).mp this
 
-/-- `Init` refuses exactly the encryption algorithm identifiers above 4 and key lengths that are not
-    a multiple of 8, and sets the default minimum key length. -/
+/-- `Init` refuses exactly: a webhook with a mis-spelt kind or certificate type, an encryption
+    algorithm identifier above 4, a key length that is not a multiple of 8; otherwise it only sets
+    the default minimum key length. -/
 theorem initDefaults_spec (p : ProvCfg) :
-    (initDefaults p = none ↔ (p.encAlg > 4 ∨ p.minKeyLen % 8 ≠ 0)) ∧
+    (initDefaults p = none ↔
+      ((∃ h ∈ p.cfg.hooks, h.kind = .unknown ∨ h.ct = .unknown) ∨ p.encAlg > 4 ∨ p.minKeyLen % 8 ≠ 0)) ∧
     (∀ p', initDefaults p = some p' → p'.cfg = p.cfg ∧ p'.minKeyLen ≠ 0 ∧ (p.minKeyLen ≠ 0 → p'.minKeyLen = p.minKeyLen)) := by
+  have hall : p.cfg.hooks.all Hook.wellSpelt = true ↔ ¬ ∃ h ∈ p.cfg.hooks, h.kind = .unknown ∨ h.ct = .unknown := by
+    simp only [List.all_eq_true, Hook.wellSpelt, Bool.and_eq_true, bne_iff_ne, ne_eq]
+    constructor
+    · rintro h ⟨x, hx, hor⟩
+      rcases hor with e | e
+      · exact (h x hx).1 e
+      · exact (h x hx).2 e
+    · intro h x hx
+      exact ⟨fun e => h ⟨x, hx, .inl e⟩, fun e => h ⟨x, hx, .inr e⟩⟩
   unfold initDefaults
   constructor
   · split
-    · simp [*]
-    · split
+    · rename_i hb
+      have : ¬ (p.cfg.hooks.all Hook.wellSpelt = true) := by simpa using hb
+      have := (not_congr hall).mp this
+      simp only [Classical.not_not] at this
+      simp [this]
+    · rename_i hb
+      have hb' : p.cfg.hooks.all Hook.wellSpelt = true := by simpa using hb
+      have hne := hall.mp hb'
+      split
       · simp [*]
-      · simp; omega
+      · split
+        · simp [*]
+        · simp only [reduceCtorEq, false_iff, not_or]
+          refine ⟨hne, by omega, by omega⟩
   · intro p' h
     split at h
     · simp at h
     · split at h
       · simp at h
-      · simp at h; subst h
-        refine ⟨rfl, ?_, ?_⟩
-        · simp; split <;> omega
-        · intro hne; simp [hne]
+      · split at h
+        · simp at h
+        · simp only [Option.some.injEq] at h
+          subst h
+          refine ⟨rfl, ?_, ?_⟩
+          · simp only; split <;> omega
+          · intro hne; simp [hne]
+
+/-- **A mis-spelt webhook never lets a certificate out.** A provisioner configured with a webhook
+    whose kind or certificate type is mis-spelt (e.g. `"kind": "scepchallenge"`, which would silently
+    never have been consulted) does not initialise; `lookupProvisioner` then does not find a SCEP
+    provisioner and no request to it is answered with a certificate, stored or sent. -/
+theorem misspelt_webhook_never_issues (F : Facts) (R : List RouteEntry) (S : Server) (pr : Prov) (p : ProvCfg)
+    (h : HttpReq) (q : Req) (sv : Served)
+    (hbad : ∃ x ∈ p.cfg.hooks, x.kind = .unknown ∨ x.ct = .unknown)
+    (hl : h.lookup = lookupOf .scep p)
+    (hrun : serve F R S pr h q = .val sv) : sv.carriesCert = false := by
+  have hnone : initDefaults p = none := (initDefaults_spec p).1.mpr (.inl hbad)
+  have hlk : h.lookup = .otherType := by simp [hl, lookupOf, hnone]
+  cases hc : sv.carriesCert with
+  | false => rfl
+  | true =>
+    have := (cert_only_via_pki F R S pr h q sv hrun hc).2.1
+    rw [hlk] at this
+    cases this
+
+/-- **`challenge_required` for whatever is written in the configuration**: for every configuration
+    `p` (well spelt or not, converted `k` times, initialised `n+1` times), every HTTP request whose
+    provisioner name resolves to it: a certificate implies that the configuration initialises (in
+    particular every webhook kind and certificate type is spelt as one) and — when a secret or a
+    challenge webhook is configured — that it accepted the challenge. -/
+theorem challenge_required_configured (R : List RouteEntry) (S : Server) (n : Nat) (p : ProvCfg)
+    (h : HttpReq) (q : Req) (sv : Served)
+    (hl : h.lookup = lookupOf .scep p)
+    (hrun : serve asCoded R S (initN (n + 1) (Prov.new p.cfg)) h q = .val sv)
+    (hc : sv.carriesCert = true) :
+    (∀ x ∈ p.cfg.hooks, x.kind ≠ .unknown ∧ x.ct ≠ .unknown) ∧
+    (selectValidationMethod p.cfg ≠ .none → Accepted p.cfg q) := by
+  constructor
+  · intro x hx
+    by_cases hb : x.kind = .unknown ∨ x.ct = .unknown
+    · have := misspelt_webhook_never_issues asCoded R S _ p h q sv ⟨x, hx, hb⟩ hl hrun
+      rw [hc] at this; cases this
+    · exact ⟨fun e => hb (.inl e), fun e => hb (.inr e)⟩
+  · intro hm
+    exact challenge_required_http R S n p.cfg h q sv hm hrun hc
 
 def exProvCfg : ProvCfg where
   cfg := { secret := [], hooks := [⟨.scep, .unset, .deny, .deny⟩] }
@@ -1258,5 +1338,19 @@ def exProvCfg : ProvCfg where
 
 example : (roundTrip exProvCfg).cfg.hooks = [⟨.scep, .all, .deny, .deny⟩] ∧
     (initDefaults exProvCfg).map (·.minKeyLen) = some 2048 := by decide
+
+/-- a challenge webhook with a mis-spelt kind: the provisioner does not initialise, before and
+    after a conversion (the admin database stores NO_KIND, which is refused as well) -/
+example :
+    initDefaults { exProvCfg with cfg := { secret := [], hooks := [⟨.unknown, .x509, .deny, .deny⟩] } } = none ∧
+    initDefaults (roundTrip { exProvCfg with cfg := { secret := [], hooks := [⟨.unknown, .x509, .deny, .deny⟩] } }) = none := by
+  decide
+
+/-- a challenge webhook with a mis-spelt certificate type: refused as configured, but the admin
+    database stores "ALL" for it, so the migrated provisioner initialises with the webhook in force -/
+theorem misspelt_certtype_activated_by_conversion :
+    initDefaults { exProvCfg with cfg := { secret := [], hooks := [⟨.scep, .unknown, .deny, .deny⟩] } } = none ∧
+    (initDefaults (roundTrip { exProvCfg with cfg := { secret := [], hooks := [⟨.scep, .unknown, .deny, .deny⟩] } })).map
+      (fun r => challengeHooks r.cfg) = some [⟨.scep, .all, .deny, .deny⟩] := by decide
 
 end Verif.SCEP
